@@ -362,9 +362,21 @@ func bitsEqual(a, b reflect.Value) string {
 	return ""
 }
 
+// chainType nests anonymous structs d levels deep (the block stack holds 16).
+func chainType(d int) reflect.Type {
+	fs := []reflect.StructField{{Name: "Level", Type: reflect.TypeOf(0)}, {Name: "Name", Type: reflect.TypeOf("")}}
+	if d > 1 {
+		fs = append(fs, reflect.StructField{Name: "Inner", Type: chainType(d - 1)})
+	}
+	return reflect.StructOf(fs)
+}
+
 func c05Case(c *core.Ctx, i int64, r *rand.Rand) {
 	var t reflect.Type
-	if r.Intn(4) == 0 {
+	if i < 32 {
+		t = chainType(1 + int(i)%16)
+		c.Count("nesting_chains_to_depth_16", 1)
+	} else if r.Intn(4) == 0 {
 		t = zoo[r.Intn(len(zoo))]
 	} else {
 		t = (&typeGen{r: r}).structType(1)
